@@ -33,7 +33,7 @@ Theorem C06_default_value : forall p s d s',
   | DInt z => d = Z_dec z
   | DFloat r => d = r
   | DUnknown => d = K"unknown"
-  | DStr x => d = x \/ (p_assigned p = POSITIONAL_VARARG /\ x = K"()" /\ d = K"[]")
+  | DStr x => d = requote_default x \/ (p_assigned p = POSITIONAL_VARARG /\ x = K"()" /\ d = K"[]")
   end.
 Proof. exact render_default_literal. Qed.
 
